@@ -19,6 +19,7 @@ def run(ctx):
     ctx.run(S.pan4_constant_result_columns)
     ctx.run(OP.pan8_range_arithmetic)
     ctx.run(SH.flw26_row_and_column_view_one_window)
+    ctx.run(S.tbl24_statement_destructured_exhaustively)
     return ctx.finish(
         'Static analysis of compiler MIR + syntax tree: the text -> AST -> Query -> task shell has '
         'no explicit panic source (unwrap/expect/panic!/assert/index) except tabled, reasoned '
